@@ -677,60 +677,70 @@ func ruleLineLimitCounting(c *Ctx) {
 	}
 }
 
-// ruleNoPartialLine (C19, C09): readLine never hands out the buffered beginning of a line the limiter refuses — for
-// the command loop (no truncated command is dispatched) and for the SASL exchange alike (the mechanism never gets a
-// truncated response).
+// ruleNoPartialLine (C04, C09, C11, C19): readLine hands out a line only when its terminator was read. The line comes
+// from a primitive that reports an error whenever it has not seen the delimiter (bufio's ReadString / ReadBytes /
+// ReadSlice with '\n'), and that error is checked before anything is handed out: a fragment left behind by a read
+// timeout, by the end of the stream or by the limiter's refusal is never dispatched as a command nor given to the SASL
+// mechanism. textproto's ReadLine / bufio's ReadLine hand out such a fragment with a nil error and are reported.
 func ruleNoPartialLine(c *Ctx) {
 	R := c.R
-	R.Rule("R-toolong-no-partial", "E3 edge-feasibility", "readLine hands out a line of the buffered reader only when the limiter is not in its refusing state (bufio.ReadLine returns the buffered beginning of a line and drops the error when the rest of the line is refused)", 1)
-	if f := c.A.Func("(*Conn).readLine"); f != nil {
-		n := 0
-		allInstrs(f, func(in ssa.Instruction) {
-			r, ok := in.(*ssa.Return)
-			if !ok || len(r.Results) != 2 {
-				return
-			}
-			d := describe(returnedValues(r)[0])
-			if !strings.Contains(d, "(*textproto.Reader).ReadLine(") {
-				return
-			}
-			n++
-			errNil := strings.TrimSuffix(d, "#0") + "#1 == nil"
-			r1, _ := c.ReachableUnder(in, []string{errNil, `(*lineLimitReader).exceeded(Conn.lineLimitReader) == true`})
-			r2, _ := c.ReachableUnder(in, []string{errNil, `lineLimitReader.curLineLength > lineLimitReader.LineLimit`, `lineLimitReader.LineLimit > 0`})
-			R.Ob(c.siteKey(in, "line handed out only while the limiter accepts"), c.P.InstrPos(in), !r1 || !r2,
-				"readLine returns the buffered reader's line without asking the limiter: when an over-long line arrives in several segments, bufio returns its buffered beginning with a nil error and that truncated prefix is dispatched as a command (e.g. MAIL reaches the backend) before the 500")
-		})
-		R.Ob("(*Conn).readLine/returns the text reader's line", c.P.Pos(f.Pos()), n >= 1, "no return of a textproto line found")
-		// the limiter is asked AFTER the read that may have put it into its refusing state (asking before says
-		// nothing about the line just read)
-		allInstrs(f, func(in ssa.Instruction) {
-			if !isStaticCall(in, "(*textproto.Reader).ReadLine") {
-				return
-			}
-			rd := in
-			v := RunPend(f, PendRule{
-				Trig: func(x ssa.Instruction) bool { return x == rd },
-				Disch: func(x ssa.Instruction) bool {
-					if isStaticCall(x, "(*lineLimitReader).exceeded") {
-						return true
-					}
-					if u, ok := x.(*ssa.UnOp); ok && u.Op == token.MUL && describe(u) == "lineLimitReader.curLineLength" {
-						return true
-					}
-					return false
-				},
-				AtExit:   true,
-				SkipEdge: c.F.SkipUnder(describe(rd.(ssa.Value)) + "#1 == nil"), // a failed read hands out no line
-				ExitOK: func(ret ssa.Instruction) bool {
-					r := ret.(*ssa.Return)
-					rv := returnedValues(r)
-					return len(rv) != 2 || !strings.Contains(describe(rv[0]), "(*textproto.Reader).ReadLine(")
-				},
-			})
-			R.Ob(c.siteKey(rd, "limiter consulted after the read"), c.P.InstrPos(rd), len(v) == 0, "the line is returned without consulting the limiter after the ReadLine call that may have exceeded the limit: a check made before the read does not cover the line just read")
-		})
+	R.Rule("R-line-terminated", "E4 value flow + E3 edge-feasibility", "readLine returns a line only from a delimiter-terminated read of the connection's buffered reader (ReadString/ReadBytes/ReadSlice with LF) whose error was checked: an unterminated fragment (timeout, end of stream, limiter refusal) is never handed out", 3)
+	f := c.A.Func("(*Conn).readLine")
+	if f == nil {
+		return
 	}
+	terminated := map[string]bool{"(*bufio.Reader).ReadString": true, "(*bufio.Reader).ReadBytes": true, "(*bufio.Reader).ReadSlice": true}
+	fragmenting := map[string]bool{"(*textproto.Reader).ReadLine": true, "(*textproto.Reader).ReadLineBytes": true, "(*bufio.Reader).ReadLine": true, "(*textproto.Reader).ReadContinuedLine": true}
+	var reads []*ssa.Call
+	allInstrs(f, func(in ssa.Instruction) {
+		call, ok := in.(*ssa.Call)
+		if !ok {
+			return
+		}
+		g := staticCallee(&call.Call)
+		if g == nil {
+			return
+		}
+		q := qualFuncName(g)
+		if fragmenting[q] {
+			R.Ob(c.siteKey(in, "no fragment-returning read"), c.P.InstrPos(in), false, "readLine reads with "+q+", which hands out the received part of an unterminated line with a nil error (read timeout in mid-line, end of stream, the limiter's refusal): the fragment is dispatched as a command — \"MAIL FROM:<a@b> SIZE=1\" of a client still sending \"SIZE=1000\" reaches the backend")
+		}
+		if terminated[q] {
+			d, isLF := constInt(call.Call.Args[1])
+			R.Ob(c.siteKey(in, "line read up to LF from the connection's reader"), c.P.InstrPos(in), isLF && d == 10 && (describe(call.Call.Args[0]) == "Conn.text.R" || describe(call.Call.Args[0]) == "textproto.Reader.R"), fmt.Sprintf("%s(%s, %s): not a read of Conn.text.R up to '\\n'", q, describe(call.Call.Args[0]), describe(call.Call.Args[1])))
+			reads = append(reads, call)
+		}
+	})
+	R.Ob("(*Conn).readLine/reads a terminated line", c.P.Pos(f.Pos()), len(reads) == 1, fmt.Sprintf("%d delimiter-terminated reads found in readLine", len(reads)))
+	if len(reads) != 1 {
+		return
+	}
+	rd := reads[0]
+	errNonNil := describe(rd) + "#1 != nil"
+	n := 0
+	allInstrs(f, func(in ssa.Instruction) {
+		r, ok := in.(*ssa.Return)
+		if !ok || in.Block() == f.Recover {
+			return
+		}
+		rv := returnedValues(r)
+		if len(rv) != 2 {
+			return
+		}
+		if k, isK := constString(rv[0]); isK && k == "" {
+			return // hands out nothing
+		}
+		n++
+		derived := false
+		for _, l := range leafSources(rv[0]) {
+			if strings.Contains(l, describe(rd)+"#0") {
+				derived = true
+			}
+		}
+		R.Ob(c.siteKey(in, "the line handed out comes from the terminated read"), c.P.InstrPos(in), derived, "readLine returns "+describe(rv[0])+", which is not derived from the delimiter-terminated read")
+		c.obUnreach("line handed out", in, errNonNil)
+	})
+	R.Ob("(*Conn).readLine/hands out a line", c.P.Pos(f.Pos()), n >= 1, "no return with a line found")
 }
 
 // readerChainEndsInLimiter traces the io.Reader textproto is built on, inside init(): through interface conversions,
